@@ -460,6 +460,82 @@ inline bool dlm::m_ok(World& w, int j)
     return which == 's' || mapped(which);
 }
 
+// sizes: many owners of one library (beyond a narrow reference counter): n copies of the library object and n symbols /
+// symbol copies, destroyed in three orders; the library stays mapped until the last one is gone and is closed exactly once
+static void dl_wide(mc::Report& rep)
+{
+    using dlm::Lib;
+    using dlm::Sym;
+    for (int n : { 17, 256, 257, 1000, 70000 })
+        for (int order = 0; order < 3; order++)
+        {
+            auto& l = dllog();
+            l = DlLog();
+            l.active = true;
+            std::string problem;
+            {
+                std::vector<std::unique_ptr<Lib>> libs;
+                std::vector<std::unique_ptr<Sym>> syms;
+                libs.emplace_back(new Lib(libpath('a')));
+                for (int i = 1; i < n; i++)
+                    libs.emplace_back(new Lib(*libs[i / 2]));
+                syms.emplace_back(new Sym(libs[n - 1]->load<int()>("vp_fn")));
+                for (int i = 1; i < n; i++)
+                    syms.emplace_back(i % 3 ? new Sym(*syms[i / 2]) : new Sym(libs[i]->load<int()>("vp_fn")));
+                // destroy all but one holder: first the libraries or first the symbols or alternating
+                auto drop = [&](std::vector<std::unique_ptr<Lib>>& v, size_t keep) {
+                    for (size_t i = 0; i < v.size(); i++)
+                        if (i != keep)
+                            v[i].reset();
+                };
+                auto drops = [&](std::vector<std::unique_ptr<Sym>>& v, size_t keep) {
+                    for (size_t i = 0; i < v.size(); i++)
+                        if (i != keep)
+                            v[i].reset();
+                };
+                if (order == 0)
+                {
+                    drop(libs, libs.size()); // every library object
+                    drops(syms, n / 3);      // every symbol but one
+                    if (!mapped('a'))
+                        problem = "library unmapped while one symbol copy is still alive";
+                    else if ((*syms[n / 3])() != 1)
+                        problem = "the surviving symbol does not call into its library";
+                }
+                else if (order == 1)
+                {
+                    drops(syms, syms.size());
+                    drop(libs, n - 1);
+                    if (!mapped('a'))
+                        problem = "library unmapped while one library copy is still alive";
+                }
+                else
+                {
+                    for (int i = 0; i < n; i++)
+                    {
+                        if (i != n / 2)
+                            libs[i].reset();
+                        syms[n - 1 - i].reset();
+                    }
+                    if (!mapped('a'))
+                        problem = "library unmapped while one library copy is still alive";
+                }
+                if (problem.empty() && l.closes != 0 && l.out_of('a') <= 0)
+                    problem = "every dlopen of the library has been closed although a holder is alive";
+            }
+            if (problem.empty() && l.opens != l.closes)
+                problem = std::to_string(l.opens) + " successful dlopen vs " + std::to_string(l.closes) + " dlclose after every holder was destroyed";
+            if (problem.empty() && mapped('a'))
+                problem = "library still mapped after every holder was destroyed";
+            l.active = false;
+            rep.count("executions");
+            rep.count("wide_cases");
+            if (!problem.empty())
+                rep.violation("library-lifetime(many-holders)", "C19:library-lifetime:wide", mc::J().s("model", "wide").n("n", n).n("order", order).str(),
+                              std::to_string(n) + " library copies and " + std::to_string(n) + " symbols, destruction order " + std::to_string(order) + ": " + problem, 0);
+        }
+}
+
 static Step dl_step(const std::vector<std::string>& hist, const std::string& op)
 {
     Step st;
@@ -514,6 +590,9 @@ static std::vector<std::string> env_values()
                 out.push_back(out[i] + c);
         from = to;
     }
+    // sizes: around the short-string and small-buffer thresholds, and long
+    for (size_t n : { 15u, 16u, 17u, 255u, 256u, 257u, 4096u, 100000u })
+        out.push_back(std::string(n, 'v') + "=end");
     return out;
 }
 
@@ -578,6 +657,16 @@ int main(int argc, char** argv)
     {
         auto doc = js::load(a.replay);
         const js::Value& w = doc.has("witness") ? doc.at("witness") : doc;
+        if (w.has("model") && w.s("model") == "wide")
+        {
+            mc::Report r;
+            dl_wide(r);
+            for (auto& v : r.violations)
+                printf("  FAILED clause: %s\n    %s\n", v.second.clause.c_str(), v.second.detail.c_str());
+            if (r.violations.empty())
+                printf("replay C19 (many holders): conforms\n");
+            return r.violations.empty() ? 0 : 1;
+        }
         if (w.has("model"))
             return seqmc::replay({ d }, w);
         std::vector<Finding> f;
@@ -621,6 +710,7 @@ int main(int argc, char** argv)
     // ---- dl
     auto r = seqmc::explore(d, a);
     total.merge(r.rep);
+    dl_wide(total);
     total.counters["env_values"] = vals.size();
     total.notes["rule"] = "env: 2 names x {unset, 259 byte strings of length <= 3 over {a,=,blank,\\n,0x80,0xff}} x 3 defaults x 2 overloads; dl: "
                           "BFS to a fixpoint over a pool of 2 library + 2 symbol objects, 2 test libraries + the program itself, 34 operations "
